@@ -510,7 +510,7 @@ func (w *World) prelude() string {
 const basePrelude = `(declare-sort Str 0)
 (declare-fun slen (Str) Int)
 (declare-fun sat (Str Int) Int)
-(assert (forall ((s Str)) (! (and (>= (slen s) 0) (<= (slen s) 9223372036854775807)) :pattern ((slen s)))))
+(assert (forall ((s Str)) (! (>= (slen s) 0) :pattern ((slen s)))))
 (assert (forall ((s Str) (i Int)) (! (and (<= 0 (sat s i)) (<= (sat s i) 255)) :pattern ((sat s i)))))
 (declare-fun sconcat (Str Str) Str)
 (assert (forall ((a Str) (b Str)) (! (= (slen (sconcat a b)) (+ (slen a) (slen b))) :pattern ((sconcat a b)))))
